@@ -268,7 +268,7 @@ def dictDom (kw : Option Nat) (kin vin : Val → Bool) (kenc venc : Val → Outc
       | .ok kbits => kbits.all (·.length == n) && strictlyAscending kbits
       | _ => false) &&
     vs.all (fun x => match venc x with
-      | .ok vb => vb.bits.length + n + 9 + Hashmap.minBitsRequired n ≤ 1023 && vb.refs.length ≤ 4
+      | .ok vb => vb.bits.length + n + 2 + Hashmap.minBitsRequired n ≤ 1023 && vb.refs.length ≤ 4
       | _ => false)
   | _, _ => false
 
